@@ -270,6 +270,18 @@ Proof.
   destruct (targets_truthy_assoc m _ v Ht Ea) as [n Hn]. unfold or_default. rewrite Hn. reflexivity.
 Qed.
 
+(* ---- the alias written into the caller's dict ---- *)
+(* _render_schema_translates executes  d["_none"] = d[None]  on the dict object it was given, so a dict that
+   is reused (copied and edited, or edited in place) carries an entry "_none" from an earlier execution.
+   While the dict still has a None key that stale entry is never consulted: the current None entry wins. *)
+Theorem stale_alias_ignored : forall d v name, has_none d = true ->
+  replace ((Some none_name, v) :: d) name = replace d name.
+Proof.
+  intros d v name Hn. unfold SchemaTr.replace, effective, d_has, d_get, has_none, has_key in *.
+  cbn [assoc ostr_eqb]. destruct (assoc None d) as [tn|] eqn:En; [|discriminate Hn].
+  cbn [andb]. destruct (str_eqb name none_name) eqn:E; [reflexivity|]. cbn [orb]. reflexivity.
+Qed.
+
 (* ---- a statement without translatable references / an empty map ---- *)
 Theorem direct_untranslated : forall m s, untranslated m s = true -> direct m s = Ok (compile_plain s).
 Proof.
